@@ -17,6 +17,8 @@ Handlers for the C16 family (harness/h_direct.cpp):
 * `direct_qr_check arith order m n A Qk R`      V-grade: exact / tolerance QR predicates on the output of `QR::factorize`
 * `direct_qr_model order m n A` · `direct_qr_solve_model order m n A b`   faithful QR model (real scalars, `rsqrt`): exact
   correspondence of the factorised buffer, `Q(i,j)` and the solution of `QR::solve`
+* `direct_qr_seq ns (kind order m n A [b])*`   ONE QR object reused for `ns` calls (`kind` 0 `factorize`: buffer and `Q(i,j)`,
+  `kind` 1 `solve`: `x`) with the members `tau`/`f`/`q` threaded through the calls (`QRModel.runSeq`)
 * `direct_qr_solve_check arith order m n A b x`  V-grade: normal equations (tall) / residual (wide) of `QR::solve`
 -/
 namespace Amgcl.Driver.Direct
@@ -61,6 +63,24 @@ def tol : Rat := Rat.divInt 1 (2 ^ 28 : Nat)
 def pDense (m n : Nat) : P (Dense Rat) := do
   let l ← pMany (m * n) pRat
   pure ⟨m, n, l.toArray⟩
+
+/-- row-major `m×n` data stored into a flat buffer with the strides of the requested storage order -/
+def qrBuf (o m n : Nat) (A : Dense Rat) : Nat × Nat × Array Rat :=
+  let rs := if o == 0 then n else 1
+  let cs := if o == 0 then 1 else m
+  (rs, cs, (List.range m).foldl (fun b i => (List.range n).foldl (fun b j =>
+    b.setIfInBounds (i * rs + j * cs) (A.get i j)) b) (Array.replicate (m * n) 0))
+
+/-- one step of `direct_qr_seq`: `kind order m n A [b]`; the shape is kept for printing -/
+def pQRStep : P (Nat × Nat × Nat × Nat × QRModel.Call Rat) := do
+  let kind ← pNat; let o ← pNat; let m ← pNat; let n ← pNat
+  if !(kind ≤ 1 && o ≤ 1 && 1 ≤ m && 1 ≤ n && m ≤ 64 && n ≤ 64) then (fail : P Unit)
+  let A ← pDense m n
+  let (rs, cs, buf) := qrBuf o m n A
+  if kind == 0 then pure (m, n, rs, cs, .factorize m n rs cs buf)
+  else do
+    let b ← pMany m pRat
+    pure (m, n, rs, cs, .solve m n rs cs buf b.toArray)
 
 def handle (op : String) (args : List String) : Option String :=
   match op with
@@ -198,6 +218,18 @@ def handle (op : String) (args : List String) : Option String :=
           showVec (QRModel.solve rsqrt m n rs cs buf b)
       | _, _, _ => some badInput
     | _ => some badInput
+  | "direct_qr_seq" =>
+    withArgs (do let ns ← pNat
+                 if !(1 ≤ ns && ns ≤ 16) then (fail : P Unit)
+                 pMany ns pQRStep) args
+      fun steps =>
+        let res := QRModel.runSeq rsqrt (steps.map (fun s => s.2.2.2.2))
+        joinSp ((steps.zip res).map (fun (s, r) =>
+          let (m, n, rs, cs, c) := s
+          match c with
+          | .factorize .. =>
+            joinSp [showVec r.1, showVec (Array.ofFn (n := m * n) (fun idx => QRModel.getQ r.2 rs cs (idx.val / n) (idx.val % n)))]
+          | .solve .. => showVec r.1))
   | "direct_qr_solve_check" =>
     match args with
     | sA :: sO :: sm :: sn :: rest =>
